@@ -425,3 +425,16 @@ func (p *ProxyInst) Gather() map[string]float64 {
 	}
 	return out
 }
+
+// pemOf renders a leaf certificate and its ECDSA key as PEM.
+func pemOf(c tls.Certificate) (certPEM, keyPEM []byte) {
+	certPEM = pem.EncodeToMemory(&pem.Block{Type: "CERTIFICATE", Bytes: c.Certificate[0]})
+	kb, _ := x509.MarshalECPrivateKey(c.PrivateKey.(*ecdsa.PrivateKey))
+	keyPEM = pem.EncodeToMemory(&pem.Block{Type: "EC PRIVATE KEY", Bytes: kb})
+	return
+}
+
+// tlsClientFor wraps conn in a TLS client that trusts the harness CA (proxy listener on 127.0.0.1).
+func tlsClientFor(conn net.Conn, ca *CA) *tls.Conn {
+	return tls.Client(conn, &tls.Config{RootCAs: ca.Pool, ServerName: "127.0.0.1"})
+}
